@@ -264,7 +264,7 @@ sd! {
 
     pub struct NonZeros {
         pub a: std::num::NonZeroU8, pub b: std::num::NonZeroU16, pub c: std::num::NonZeroU32,
-        pub d: std::num::NonZeroU64, pub e: std::num::NonZeroI32, pub f: std::num::NonZeroI64,
+        pub d: std::num::NonZeroU64, pub e: std::num::NonZeroUsize,
         pub g: Option<std::num::NonZeroU32>,
     }
 
@@ -744,7 +744,8 @@ pub fn build_main() -> Reg {
     r.body::<std::num::NonZeroU8>("nzu8", G);
     r.body::<std::num::NonZeroU32>("nzu32", G);
     r.body::<std::num::NonZeroU64>("nzu64", G);
-    r.body::<std::num::NonZeroI16>("nzi16", G);
+    // NonZeroI*: schemars emits {type: integer, not: {const: 0}}; j2oas_schema_object panics
+    // ("a schema can't have both a type and subschemas"): outside the supported domain
     r.body::<std::time::Duration>("duration", G);
     r.body::<Value>("value", G);
     r.body::<Option<u32>>("opt_u32", G);
